@@ -35,13 +35,51 @@ def setup():
     logging.disable(logging.CRITICAL)
     from annet import rulebook, hardware, diff
     import annet.api  # noqa: F401  (imports the whole production composition)
-    for conn, cls in ((rulebook.rulebook_provider_connector, rulebook.DefaultRulebookProvider),
+    for conn, cls in ((rulebook.rulebook_provider_connector, harness_provider_class()),
                       (hardware.hardware_connector, hardware.AnnetHardwareProvider),
                       (diff.file_differ_connector, diff.UnifiedFileDiffer)):
         try:
             conn.set(cls)
         except RuntimeError:
             pass
+
+
+_RB_OVERRIDE = []      # stack of callables hw -> rulebook | None
+_PROVIDER_CLS = []
+
+
+def harness_provider_class():
+    """the rulebook provider the harness registers at annet's official seam (the rulebook provider connector, as a deployment
+    of annet would register its own): annet's DefaultRulebookProvider, except that while a check has an override in force
+    (rulebook_override) every get_rulebook(hw) in the process - whichever module asks - is answered by the override.  This is
+    how checks hand a synthetic rulebook to production entry points that fetch the rulebook themselves."""
+    if not _PROVIDER_CLS:
+        from annet import rulebook
+
+        class HarnessRulebookProvider(rulebook.DefaultRulebookProvider):
+            def get_rulebook(self, hw):
+                for fn in reversed(_RB_OVERRIDE):
+                    rb = fn(hw, super().get_rulebook)
+                    if rb is not None:
+                        return rb
+                return super().get_rulebook(hw)
+        _PROVIDER_CLS.append(HarnessRulebookProvider)
+    return _PROVIDER_CLS[0]
+
+
+class rulebook_override:
+    """with env.rulebook_override(lambda hw, real: rb_or_None): ...   (real = the provider's own get_rulebook)"""
+
+    def __init__(self, fn):
+        self.fn = fn
+
+    def __enter__(self):
+        _RB_OVERRIDE.append(self.fn)
+        return self
+
+    def __exit__(self, *a):
+        _RB_OVERRIDE.remove(self.fn)
+        return False
 
 
 _hw_cache = {}
